@@ -7,8 +7,9 @@ from lib.mirq import Slice, calls_matching, edge_dominates, result_exits, switch
 from lib import guardsum as G
 
 TECHNIQUE = ("MIR CFG must-precede (dominance) of the CRC verifier over the section parser at every loader entry, propagation of the verifier's Err edge, "
-             "who-may-call for the parser, and an intra-procedural taint rule (file-derived values -> allocation sizes, indices, overflow-checked arithmetic) "
-             "over every body reachable from the loader entries, with dominating-comparison discharge")
+             "who-may-call for the parser, and a taint rule (file-derived values -> allocation sizes, indices, overflow-checked arithmetic) "
+             "over every body reachable from the loader entries, with dominating-comparison discharge; a comparison may sit in a private guard helper "
+             "(guard summaries: which parameters are compared on every Ok return / by a bool predicate; success-edge dominance at the call), named constants are resolved")
 EXPLANATION = (
     "Decides the structural clauses of C07: (R1) every function that calls the section parser first calls the CRC verifier on the same reader, the call "
     "dominates the parser call and the verifier's Err is propagated (`?`), and the parser is only called from such gated entries; the verifier reads the "
